@@ -3,33 +3,36 @@
 // Contracts for the deductive verification in /verif (comment-only; compiled code is unaffected).
 package standard
 
+// every collaborator the constructor checks for is present (object invariant: proved for the value the constructor returns)
+//@ spec wiredWalletManager(s *Service) bool = s != nil && s.checker != nil && s.fetcher != nil && s.ruler != nil && s.unlocker != nil
+
 // C07 (act only after the permission check), C20 (no panic): wallet lock/unlock.
 
 //@ func (*Service).fetchWallet
-//@ requires s != nil
+//@ requires wiredWalletManager(s)
 //@ ensures [found] result1 == core.ResultSucceeded ==> result0 != nil
 //@ ensures [none] result1 != core.ResultSucceeded ==> result0 == nil
 
 //@ func (*Service).checkAccess
-//@ requires s != nil
+//@ requires wiredWalletManager(s)
 //@ modifies checkedset, deniedset
 //@ ensures [ok] result == core.ResultSucceeded ==> credentials != nil && (credentials.Client + "|" + accountName + "|" + action) in checkedset
 
 //@ func (*Service).preCheck
-//@ requires s != nil
+//@ requires wiredWalletManager(s)
 //@ modifies checkedset, deniedset
 //@ ensures [ok] result1 == core.ResultSucceeded ==> result0 != nil && credentials != nil && wkey(credentials.Client, nameOf(result0), action) in checkedset
 //@ ensures [none] result1 != core.ResultSucceeded ==> result0 == nil
 
 //@ func (*Service).Lock
-//@ requires s != nil
+//@ requires wiredWalletManager(s)
 //@ requires [unlocked] !prelocked && (forall k [48]byte :: !held[k])
 //@ modifies checkedset, deniedset, tokroot, db, held, prelocked
 //@ ensures [released] !prelocked && (forall k [48]byte :: !held[k])
 //@ ensures [nocred] credentials == nil ==> result0 == core.ResultFailed
 
 //@ func (*Service).Unlock
-//@ requires s != nil
+//@ requires wiredWalletManager(s)
 //@ requires [unlocked] !prelocked && (forall k [48]byte :: !held[k])
 //@ modifies checkedset, deniedset, tokroot, db, held, prelocked
 //@ ensures [released] !prelocked && (forall k [48]byte :: !held[k])
